@@ -9,6 +9,11 @@ from .._compat import number_types, string_types
 NoneType = type(None)
 
 
+def _is_plain_number(value):
+    # bool is a subclass of int, but a logical is not a number when ranking values
+    return isinstance(value, number_types) and not isinstance(value, bool)
+
+
 class ExcelComparator(object):
 
     def __init__(self, value):
@@ -36,7 +41,7 @@ class ExcelComparator(object):
                 return ExcelComparator(other).__gt__(self.value)
         if type(self.value) != type(other):
             other = self.convert_other(other)
-        if type(self.value) != type(other) and not (isinstance(self.value, number_types) and isinstance(other, number_types)):
+        if type(self.value) != type(other) and not (_is_plain_number(self.value) and _is_plain_number(other)):
             # if the type is still different
             if isinstance(self.value, bool):
                 return False  # bool is the biggest in XL
@@ -56,7 +61,7 @@ class ExcelComparator(object):
             return ExcelComparator(other).__lt__(self.value)
         if type(self.value) != type(other):
             other = self.convert_other(other)
-        if type(self.value) != type(other) and not (isinstance(self.value, number_types) and isinstance(other, number_types)):
+        if type(self.value) != type(other) and not (_is_plain_number(self.value) and _is_plain_number(other)):
             if isinstance(self.value, bool):
                 return True  # bool is the biggest in XL
             if isinstance(self.value, string_types):
@@ -75,6 +80,8 @@ class ExcelComparator(object):
             return ExcelComparator(other).__eq__(self.value)
         if type(self.value) != type(other):
             other = self.convert_other(other)
+        if isinstance(self.value, bool) != isinstance(other, bool):
+            return False  # a logical only equals a logical (Python has True == 1)
         return self.value == other
 
     def __ge__(self, other):
